@@ -79,15 +79,14 @@ def run(ck):
     rfl = ck.flow(rs)
     for flag in ("ENTRY_ABORTED", "ENTRY_BAD_LENGTH"):
         ck.require_fact("H4.truncated-not-complete", rfl, complete_ret, E.m_mentions(flag), False, "return STREAM_COMPLETE", why="(a truncated body would end the response as if complete)")
-    size_local = E.M(lambda t: E.strip(t).get("k") == "bin" and any(E.m_calls("HttpReply::bodySize")(d) for n in E.mentions(t) for d in ck.local_defs(rs).get(n, [])), "expectedBodySize >= 0")
-    ck.require_any("H4.truncated-not-complete", rs, complete_ret, [(E.m_calls("ClientHttpRequest::gotEnough"), True), (size_local, True)], "return STREAM_COMPLETE",
+    size_unknown = E.m_cmp("<", ck.m_result_of(rs, "HttpReply::bodySize"), E.m_const(0))   # `expectedBodySize >= 0` is the atom (expectedBodySize < 0) == F
+    ck.require_any("H4.truncated-not-complete", rs, complete_ret, [(E.m_calls("ClientHttpRequest::gotEnough"), True), (size_unknown, True)], "return STREAM_COMPLETE",
                    why="(fewer body bytes than announced would be reported as a complete stream)")
 
     # ------------------------------------------------------------------ D: disk hits are validated against the entry they were opened for
     ck.rule("D1 WHO(Store::UnpackHitSwapMeta) = {store_client::readHeader}; readHeader reaches maybeWriteFromDiskToMemory()/handleBodyFromDisk() only with object_ok T, len < 0 F and after "
             "UnpackHitSwapMeta(); UnpackHitSwapMeta: from case STORE_META_URL every path to the end passes CheckSwapMetaUrl(), from case STORE_META_KEY_MD5 CheckSwapMetaKey(); "
             "CheckSwapMetaKey returns normally only with KEY_PRIVATE T or memcmp(meta, entry.key) == 0; CheckSwapMetaUrl only with a terminated URL and (no known URIs or strcasecmp == 0)")
-    ck.who_calls("D1.who-validates-disk-hits", facts, "Store::UnpackHitSwapMeta", {SC + "readHeader": "the disk-hit metadata reader"}, kinds=("call", "ref"))
     rh = facts.fn(SC + "readHeader")
     use = ev_any(ev_call(SC + "maybeWriteFromDiskToMemory"), ev_call(SC + "handleBodyFromDisk"))
     hfl = ck.flow(rh, markers={"validated": ev_call("Store::UnpackHitSwapMeta")})
@@ -96,6 +95,7 @@ def run(ck):
     lens = [p["d"] for p in rh.params if "ssize_t" in p["t"] or p["t"] == "long"]
     ck.need(len(lens) == 1, "C10: store_client::readHeader lost its length parameter")
     ck.require_fact("D1.metadata-validated-first", hfl, use, E.m_cmp("<", E.m_is_ref(lens[0]), E.m_const(0)), False, "use of disk bytes", min_sites=2, why="(a failed disk read would be parsed)")
+    ck.who_calls("D1.who-validates-disk-hits", facts, "Store::UnpackHitSwapMeta", {SC + "readHeader": "the disk-hit metadata reader"}, kinds=("call", "ref"))
     uh = facts.fn("Store::UnpackHitSwapMeta")
     sw = [b for b in uh.blocks.values() if b.get("term", {}).get("k") == "SwitchStmt"]
     ck.need(len(sw) == 1 and "Store::SwapMetaView::type" in E.mentions(sw[0]["term"]["c"]), "C10: UnpackHitSwapMeta no longer switches on meta.type")
